@@ -28,7 +28,9 @@ package pipeline
 //@ ensures failed: implies(result1 != nil && evcount(intermediateBuilt) == old(evcount(intermediateBuilt)), len(result0.Flat) == 0)
 
 // ---- determinism (C13): canonical order of what reaches the emitters ----
+// assumed: every controller node of the graph carries the annotation holder the controller visitor gave it
 //@ func GleecePipeline.getControllers trusted
+//@ ensures forall(k, 0, len(result), result[k].Struct.Annotations != nil)
 //@ func GleecePipeline.getReductionContext trusted
 
 // Reduction hands out import serials on first use, so the order in which controllers are reduced is part of the
@@ -36,7 +38,10 @@ package pipeline
 //@ spec ctlBefore(a metadata.ControllerMeta, b metadata.ControllerMeta) bool = a.Struct.PkgPath < b.Struct.PkgPath || (a.Struct.PkgPath == b.Struct.PkgPath && !(b.Struct.Name < a.Struct.Name))
 //@ extern slices.Clone
 //@ ensures? fresh(result) && len(result) == len(s)
+//@ ensures? forall(i, 0, len(s), result[i] == s[i])
 //@ func GleecePipeline.reduceControllers props C13,C14 havocs
+//@ requires forall(k, 0, len(controllers), controllers[k].Struct.Annotations != nil)
+//@ loop 0 invariant forall(k, 0, len(controllers), controllers[k].Struct.Annotations != nil)
 // (stated for the moment the loop is entered - i.e. an assertion on what the sort established; the reductions
 // themselves may change any heap)
 //@ loop 0 invariant implies(_n == 0, forall(i, 0, len(controllers)-1, ctlBefore(controllers[i], controllers[i+1])))
